@@ -6,6 +6,8 @@ use std::panic;
 
 mod bitmap;
 mod grid;
+mod ringslots;
+mod idle;
 mod seqapi;
 
 fn run_case(fam: &str, args: &[i128]) -> Vec<i128> {
@@ -15,6 +17,8 @@ fn run_case(fam: &str, args: &[i128]) -> Vec<i128> {
         "gridrec" => grid::run_rec(args),
         "gridnz" => grid::run_nz(args),
         "seqapi" => seqapi::run(args),
+        "ringslots" => ringslots::run(args),
+        "idleprobe" => idle::run(args),
         _ => panic!("unknown family {fam}"),
     }
 }
